@@ -45,7 +45,9 @@ def regenerate(ctx):
         facts = rt.gather(str(vlib.REPO), cache_dir=str(vlib.BUILD / "racetable"))
     except Exception as e:            # clang could not parse a translation unit, missing tool …
         raise vlib.BuildError("translator tools/racetable.py failed: %s" % str(e)[-2500:])
-    disc = rt.discipline(facts, rt.role_roots(vlib.LEAN / "BFL" / "Model" / "Race.lean"))
+    roots = rt.role_roots(vlib.LEAN / "BFL" / "Model" / "Race.lean")
+    rt.apply_entry_locks(facts, roots)
+    disc = rt.discipline(facts, roots)
     facts["discipline"] = disc
     txt = rt.emit_lean(facts, disc)
     out = vlib.LEAN / "BFL" / "Gen" / "RaceTable.lean"
